@@ -142,6 +142,26 @@ def removeAgent (w : World) (a : Aid) : World :=
     | none => w
     | some r => { w with regs := w.regs.set i.model (r.deregister a i.ty), removedLog := w.removedLog ++ [a] }
 
+/-- `model.register_agent(agent)` called **directly** by the program, on an agent it can reach (`Agent.__init__` has
+    already registered it once; some user code does it again) -/
+def registerAgain (w : World) (a : Aid) : World :=
+  match w.info[a]? with
+  | none => w
+  | some i =>
+    match w.regs[i.model]? with
+    | none => w
+    | some r => { w with regs := w.regs.set i.model (r.register a i.ty) }
+
+/-- `model.deregister_agent(agent)` called **directly**: there is no `suppress(KeyError)` around it — `none` = the
+    `KeyError` of `del self._agents[agent]` for an agent that is not registered (nothing was changed before it) -/
+def deregisterDirect (w : World) (a : Aid) : Option World :=
+  match w.info[a]? with
+  | none => none
+  | some i =>
+    match w.regs[i.model]? with
+    | none => none
+    | some r => if a ∈ r.hard then some (removeAgent w a) else none
+
 /-- `Model.remove_all_agents`: `for agent in list(self._agents.keys()): agent.remove()` -/
 def removeAll (w : World) (m : Nat) : World :=
   match w.regs[m]? with
